@@ -179,5 +179,26 @@ ADDED = {
  'C19': 'Also: list bitmaps consumed only by single-bit tests (R06f).',
  'C20': 'Also: exact index test of the metadata verifier (R12a shared).',
 }
-for _k, _v in ADDED.items():
-    CHECKS[_k]['text'] += ' ' + _v
+ADDED3 = {
+ 'C01': 'Third wave: the copy position must be a true recurrence (no per-iteration quantity as a factor); R04a shared.',
+ 'C02': 'Third wave: R15e and R03b/R03c shared.',
+ 'C04': 'Third wave: kernel tiling also checks each way round a loop separately (a path that advances the element index without writing is a hole).',
+ 'C05': 'Third wave: scalar parameters used as parity-relative / bit positions type their call-site arguments (x - m is not a conversion); decode / reconstruct '
+        'operations do not write through the erasure list (R15f).',
+ 'C06': 'Third wave: the two-data planner hands on the element it did not plan (R06h, constant propagation over a concrete two-element list); R05f shared.',
+ 'C07': 'Third wave: R10a and R15d shared (checksum bytes and history independence of header bytes).',
+ 'C10': 'Third wave: R12d shared.',
+ 'C12': 'Third wave: the metadata backend_version is judged only by ops->is_compatible_with (R12e); R09b shared.',
+ 'C13': 'Third wave: ownership typestate R16a shared (a refused create keeps nothing allocated).',
+ 'C14': 'Third wave: unregister overwrites only a pointer that was compared equal to the removed instance (R14j).',
+ 'C15': 'Third wave: XOR decode / reconstruct write only buffers of missing elements or local scratch (R15g); erasure list read-only (R15f); R11c shared.',
+ 'C16': 'Third wave: the typestate resolves returned merges per edge and conditional expressions with a NULL arm, reports may-double-free; an error return hands no '
+        'allocation out through an output parameter (R16f); after a successful backend init every non-registering path calls the exit op (R16g).',
+ 'C17': 'Third wave: R16a, R16f, R16g shared.',
+ 'C18': 'Third wave: no global is written while the registry lock is held in read mode only (R18f); R15d shared.',
+ 'C19': 'Third wave: decode / reconstruct hand their own erasure list to every helper (R19g); inversion failure followed by value (R19a).',
+ 'C20': 'Third wave: R10b and R03c shared.',
+}
+for _d in (ADDED, ADDED3):
+    for _k, _v in _d.items():
+        CHECKS[_k]['text'] += ' ' + _v
